@@ -365,6 +365,17 @@ def _oracle_mw(case):
         inner = blk.ignore_error_block
         if not isinstance(inner, M.Entry) or inner.key != entry.key or [f.key for f in inner.fields] != [k for k, _ in case["fields"]]:
             return "the error block does not retain the original entry"
+        # "retains the original entry ... never a silently altered name": every name field of the retained entry is either
+        # still the original list of strings or completely converted (fields before the failing one) - never a mixture
+        for f, (k, _), v in zip(inner.fields, case["fields"], vals):
+            if k in ("author", "editor", "translator"):
+                bad = any(U.sections_spec(n) is None for n in v)
+                if bad and f.value != v:
+                    return "error block: the field %s with the invalid name was altered: %r (original %r)" % (k, f.value, v)
+                if not bad and f.value != v and f.value != [parse(n) for n in v]:
+                    return "error block: field %s is neither the original nor the converted list: %r" % (k, f.value)
+            elif f.value != v:
+                return "error block: non-name field %s changed" % k
         try:
             copy.deepcopy(blk)
         except Exception as e:  # noqa
